@@ -217,6 +217,9 @@ func check(c *pbt.Case, r *pbt.R) {
 	r.Count("constructor", ct.name)
 	r.St.CountN("depth", d)
 	r.St.CountN("path length", len(path))
+	if len(path) >= 26 {
+		r.Count("features", "more than 32 frames on the stack")
+	}
 	if len(path) > 0 {
 		r.Count("innermost helper", c.L["path"][len(path)-1])
 	}
@@ -227,7 +230,8 @@ var prop = &pbt.Prop{ID: "C16", Part: "call-paths", Check: check,
 		c := &pbt.Case{}
 		c.SetInt("ctor", rapid.IntRange(0, len(ctors)-1).Draw(t, "ctor"))
 		c.SetInt("depth", rapid.IntRange(0, 3).Draw(t, "depth"))
-		n := rapid.IntRange(3, 6).Draw(t, "pathlen")
+		// (long call paths too: the library records at most 32 frames)
+		n := rapid.OneOf(rapid.IntRange(3, 6), rapid.IntRange(3, 6), rapid.IntRange(20, 40), rapid.Just(70)).Draw(t, "pathlen")
 		var path []string
 		for i := 0; i < n; i++ {
 			path = append(path, rapid.SampledFrom(reg.Names).Draw(t, "helper"))
